@@ -23,7 +23,7 @@ pub fn exec_case(case: &Value) -> Value {
         "history" => props::c14::exec(case),
         "yaml_load" => props::c20::exec(case),
         "conv" | "widen" | "roundtrip" | "hexparse" | "textconv" | "boolip" => props::c19::exec(case),
-        "tpl_replace" | "tpl_load" => props::c17::exec(case),
+        "tpl_replace" | "tpl_load" | "tpl_api" => props::c17::exec(case),
         _ => serde_json::json!({ "error": format!("unknown op {op}") }),
     }
 }
